@@ -143,7 +143,9 @@ pub fn run(args: &Args) {
                 let (_, mut hdr) = default_header(&l, &mut rng);
                 hdr.insert("date".into(), day.to_be_bytes().to_vec());
                 let hb = l.get("volume_header").encode(&hdr);
-                let bodies = [rng.bytes(300 * 1024 - k as usize), vec![k as u8; 250_000], rng.bytes(100_001)];
+                // the last file also carries a payload above 4 MiB (half random, half constant) and one of 9 MB of a single byte
+                let mut huge = rng.bytes(2_200_000); huge.extend(std::iter::repeat(0x31u8).take(2_300_001));
+                let bodies = if k == 2 { vec![huge, vec![9u8; 9_000_000], rng.bytes(100_001)] } else { vec![rng.bytes(300 * 1024 - k as usize), vec![k as u8; 250_000], rng.bytes(100_001)] };
                 let wire: Vec<(Vec<u8>, bool)> = bodies.iter().map(|b| (bz(b), k % 2 == 0)).collect();
                 let plain: Vec<Option<Vec<u8>>> = bodies.iter().cloned().map(Some).collect();
                 let bytes = build_file(&hb, &wire);
@@ -251,6 +253,26 @@ pub fn run_total(args: &Args) {
         emit("type31_gate_bomb_stream", &m, &mut tr, &mut res);
         emit("type31_gate_bomb_volume", &build_file(&hb, &[(bz(&m), true)]), &mut tr, &mut res);
         emit("type31_gate_bomb_volume_raw", &build_file(&hb, &[(m.clone(), false)]), &mut tr, &mut res);
+    }
+    // (3c) a complete, otherwise well-formed radial (volume / elevation / radial blocks present, so that the scan gets as far as
+    //      converting moments) whose moment block declares a word size other than 8 or 16
+    for word in [0u8, 1, 4, 7, 9, 12, 15, 17, 24, 32, 64, 255] {
+        let l = Layouts::load();
+        let mut blocks: Vec<crate::drd::Block> = ["VOL", "ELV", "RAD"].iter().map(|p| crate::drd::random_block(&l, &mut rng, p, 0, 8, 0)).collect();
+        let mut refl = crate::drd::random_block(&l, &mut rng, "REF", 0, 8, 0);
+        refl.rec.insert("number_of_data_moment_gates".into(), 5u16.to_be_bytes().to_vec());
+        refl.rec.insert("data_word_size".into(), vec![word]);
+        refl.gates = rng.bytes(5 * (word as usize / 8));
+        blocks.push(refl);
+        let mut hdr = l.get("drd_header").random(&mut rng);
+        hdr.insert("date".into(), 19_800u16.to_be_bytes().to_vec());
+        hdr.insert("time".into(), 1000u32.to_be_bytes().to_vec());
+        let mut m = crate::frames::msg_header_bytes(31, 1, 0xFFFF);
+        m.extend_from_slice(&crate::drd::build_message(&l, &hdr, &blocks, &[0, 1, 2, 3]));
+        let mut raw_rec = prefix(m.len(), false).to_vec(); raw_rec.extend_from_slice(&m);
+        emit("type31_odd_word_size_record", &raw_rec, &mut tr, &mut res);
+        emit("type31_odd_word_size_volume", &build_file(&hb, &[(bz(&m), true)]), &mut tr, &mut res);
+        emit("type31_odd_word_size_volume_raw", &build_file(&hb, &[(m.clone(), false)]), &mut tr, &mut res);
     }
     for _ in 0..(if args.thorough { 400 } else { 60 }) { let mut v = valid.clone(); let n = 1 + rng.below(4); for _ in 0..n { let at = rng.below(v.len() as u64) as usize; v[at] ^= 1 << rng.below(8); } emit("corrupt_bzip2", &v, &mut tr, &mut res); let mut ch = chunk.clone(); let at = 6 + rng.below(ch.len() as u64 - 6) as usize; ch[at] = rng.next() as u8; emit("corrupt_chunk", &ch, &mut tr, &mut res); }
     res.sample(json!({"classes": ["alphabet (exhaustive)", "length", "random", "stratified", "truncated_volume", "truncated_chunk", "corrupt_prefix", "corrupt_bzip2"], "entry_points": entry_points(&[]).keys().collect::<Vec<_>>()}));
